@@ -532,6 +532,57 @@ def probs_helper(ctx, meth, public):
     return None, None, None
 
 
+def fresh_store_sites(fn):
+    """[(assign node, guarded)] for every `D[key] = {...}` inside a while loop of fn: guarded when
+    the statement is reached only under `key not in D` (an enclosing if, the else of `key in D`,
+    or an earlier `if key in D: continue` of the same iteration)"""
+    out = []
+
+    def is_in(test, key, d, op):
+        return isinstance(test, ast.Compare) and len(test.ops) == 1 \
+            and isinstance(test.ops[0], op) and ast.unparse(test.left) == key \
+            and ast.unparse(test.comparators[0]) == d
+
+    def visit(stmts, guards):
+        guards = set(guards)
+        for st in stmts:
+            if isinstance(st, ast.Assign) and len(st.targets) == 1 \
+                    and isinstance(st.targets[0], ast.Subscript) \
+                    and isinstance(st.value, ast.Dict) and st.value.keys:
+                key, d = ast.unparse(st.targets[0].slice), ast.unparse(st.targets[0].value)
+                out.append((st, (key, d) in guards))
+            elif isinstance(st, ast.If):
+                t = st.test
+                pos = neg = None
+                if isinstance(t, ast.Compare) and len(t.ops) == 1 \
+                        and isinstance(t.ops[0], (ast.In, ast.NotIn)):
+                    kd = (ast.unparse(t.left), ast.unparse(t.comparators[0]))
+                    if isinstance(t.ops[0], ast.NotIn):
+                        pos = kd
+                    else:
+                        neg = kd
+                elif isinstance(t, ast.UnaryOp) and isinstance(t.op, ast.Not) \
+                        and isinstance(t.operand, ast.Compare) and len(t.operand.ops) == 1 \
+                        and isinstance(t.operand.ops[0], ast.In):
+                    pos = (ast.unparse(t.operand.left), ast.unparse(t.operand.comparators[0]))
+                visit(st.body, guards | ({pos} if pos else set()))
+                visit(st.orelse, guards | ({neg} if neg else set()))
+                # `if key in D: continue` : the rest of the iteration runs under key not in D
+                if neg and st.body and isinstance(st.body[-1], (ast.Continue, ast.Break,
+                                                                ast.Return, ast.Raise)):
+                    guards.add(neg)
+                if pos and st.orelse and isinstance(st.orelse[-1], (ast.Continue, ast.Break,
+                                                                    ast.Return, ast.Raise)):
+                    guards.add(pos)
+            elif isinstance(st, (ast.For, ast.With, ast.Try)):
+                for blk in ("body", "orelse", "finalbody"):
+                    visit(getattr(st, blk, []) or [], guards)
+    for w in ast.walk(fn):
+        if isinstance(w, ast.While):
+            visit(w.body, set())
+    return out
+
+
 def check_definitions(ctx, chk):
     for meth, field, pool, key2, cost_p, probs_p in (
             ("_generate_exploits", "service", "G.services", "exploits", "exploit_cost",
@@ -550,6 +601,19 @@ def check_definitions(ctx, chk):
             continue
         ev = defs[0]
         items = {k: cn.show(v) for k, v in ip.heap[ev.data["value"][1]]["items"].items()}
+        # a definition is stored once: inside the drawing loop the store happens only for a name
+        # that is not in the table yet (a name drawn again must not replace the earlier
+        # definition - its probability is the one requested for *that* position)
+        sites = fresh_store_sites(canonical_tests(fi.node))
+        for node, guarded in sites:
+            chk.ob("C15.definitions", f"{meth}: a definition is stored only under a name that is "
+                   "not in the table yet (a name drawn twice does not overwrite the earlier "
+                   "definition)", guarded,
+                   f"`{ast.unparse(node.targets[0])} = ...` is not guarded by "
+                   f"`{ast.unparse(node.targets[0].slice)} not in "
+                   f"{ast.unparse(node.targets[0].value)}`: a repeated draw replaces the stored "
+                   "definition (its probability, access level)",
+                   f"{fi.module.path}:{node.lineno}", firm=True)
         counter = "exploits_added" if meth == "_generate_exploits" else "privescs_added"
         probs_call = [e for e in s.events if e.kind == "call"
                       and e.data["fname"].endswith("." + ph_name)]
@@ -1037,9 +1101,10 @@ def check_firewall(ctx, chk):
         if private or shared:
             chk.ob("C15.firewall", f"_generate_firewall: {ev.data['name']}() at line "
                    f"{ev.loc.split(':')[1]} works on a private copy of the destination's services",
-                   private, f"receiver {cn.show(r)[:160]} is the shared per-subnet table entry: "
-                   "services removed for one rule are missing from every later rule into the same "
-                   "destination subnet", ev.loc)
+                   private, "the receiver is an entry of the per-subnet table itself (a subscript "
+                   "of the dict the method filled earlier), not a copy: services removed for one "
+                   "rule are missing from every later rule into the same destination subnet",
+                   ev.loc, firm=True)
         else:
             chk.undecided("C15.firewall", f"_generate_firewall: {ev.data['name']}() at line "
                           f"{ev.loc.split(':')[1]} works on a private copy of the destination's "
